@@ -722,12 +722,15 @@ func checkOrdering(c *Ctx, p *core.Prog) {
 	if !c.R.Anchor(fn != nil, "v2.(*Classifier).match") {
 		return
 	}
-	oa := eng.NewOrderAnalysis(p, []*ssa.Function{fn})
+	// the sort of the candidates: in match, or in a helper of match (the sort-and-filter stage split off)
+	oa := eng.NewOrderAnalysis(p, pkgClosure(fn, v2pkg))
 	oa.FindSorts()
 	var site *eng.SortSite
 	for _, s := range oa.Sorts {
 		if s.Value != nil && strings.HasSuffix(core.TypeName(s.Value.Type()), "/v2.Matches") {
-			site = s
+			if site == nil || s.Fn == fn {
+				site = s
+			}
 		}
 	}
 	if site == nil {
@@ -758,6 +761,29 @@ func checkOrdering(c *Ctx, p *core.Prog) {
 		}
 		if cst, isConst := m.(*ssa.Const); isConst && cst.Value == nil {
 			continue // early return with no matches
+		}
+		if site.Fn != fn {
+			// the helper that sorts also filters: match returns that helper's result, and the helper's result is an
+			// order-preserving filter of what it sorted
+			call, isCall := core.Unspill(m).(*ssa.Call)
+			if !isCall || call.Call.StaticCallee() != site.Fn {
+				okFilter, why = false, "the sort is in "+core.ShortFn(site.Fn)+" but Results.Matches is not that function's result"
+				continue
+			}
+			var rv ssa.Value
+			nRet := 0
+			for _, b := range site.Fn.Blocks {
+				if ret, isRet := b.Instrs[len(b.Instrs)-1].(*ssa.Return); isRet && len(ret.Results) >= 1 {
+					rv = ret.Results[0]
+					nRet++
+				}
+			}
+			if nRet != 1 {
+				okFilter, why = false, core.ShortFn(site.Fn)+" has several returns"
+				continue
+			}
+			okFilter, why = orderPreservingFilter(rv, fam, site.Call)
+			continue
 		}
 		if g, gm, gfam, ok := resultBuilder(m, fam); ok {
 			// the result is built by a helper from the sorted slice it is handed after the sort
